@@ -1,7 +1,7 @@
 """C15 — cluster values are opaque labels; the cluster level changes clusters and flags only.
-Proof (partial, see Props/C15.v): the cluster-combining primitives of the buffer model (set_cluster,
-minimum and run scans, merge_array, merge_clusters, ranged set_masks) and the streaming operations commute
-with every strictly increasing relabelling.  Tie: buffer operation correspondence (hook).  Search: paired
+Proof (Props/C15.v): every operation of the buffer alphabet and every finite operation sequence commutes
+with every strictly increasing relabelling of the cluster values (C15_every_operation / C15_every_sequence);
+cluster comparisons outside the buffer layer are search-only.  Tie: buffer operation correspondence (hook).  Search: paired
 public-API shapes that differ only by a strictly increasing relabelling of the input clusters, and the
 same request at the three cluster levels, on corpus fonts (global features only); the known class
 feature_range_splits_grapheme is probed deterministically on a generated font."""
